@@ -244,7 +244,33 @@ def r3_inventory(repo: Repo, rep):
                           f"`self.{attr}` is written during a training step in {sorted(set(where))[:3]} and is not part of any checkpoint", f"self.{attr} written in {sorted(set(where))[:3]}")
 
 
+def r5_state_layout(repo: Repo, rep):
+    R = rep.rule("R-C19-5", "the set of parameters / buffers / sub-modules of every nn.Module of the package is fixed by its constructor: nothing is registered in hooks, forward or setup methods", floor=6,
+                 why="Lightning loads the checkpoint's state_dict into a freshly built module BEFORE on_train_start: a key created later is 'unexpected' on resume (or silently not restored)")
+    n = 0
+    for fi in repo.all_functions():
+        if fi.cls is None:
+            continue
+        calls = [c for c in ast.walk(fi.node) if isinstance(c, ast.Call) and isinstance(c.func, ast.Attribute) and c.func.attr in ("register_buffer", "register_parameter", "add_module", "register_module")
+                 and dump(c.func.value) == "self"]
+        if not calls:
+            continue
+        n += 1
+        rep.saw(fi)
+        ok = fi.name == "__init__"
+        if not ok:
+            # a helper called from the constructor of the same class only
+            init = fi.cls.methods.get("__init__")
+            called_from_init = init is not None and any(isinstance(c, ast.Call) and dump(c.func) == f"self.{fi.name}" for c in ast.walk(init.node))
+            elsewhere = [m.name for m in fi.cls.methods.values() if m.name not in ("__init__", fi.name) and any(isinstance(c, ast.Call) and dump(c.func) == f"self.{fi.name}" for c in ast.walk(m.node))]
+            ok = called_from_init and not elsewhere
+        rep.check(R, ok, fi.site(calls[0]), fi.fq, "registration happens during construction", f"`{dump(calls[0])[:70]}` in {fi.name}", f"{dump(calls[0].func)} in {fi.name}")
+    if n == 0:
+        rep.undecided(R, "src/torchphysics", "package", "registration calls", "none found")
+
+
 def run(repo: Repo, rep):
+    r5_state_layout(repo, rep)
     r1_registration(repo, rep)
     r2_callbacks(repo, rep)
     r3_inventory(repo, rep)
